@@ -37,11 +37,13 @@ KindActs(k) ==
     [] k = "ctlRespOff" -> <<ACtlRespAccess("Off")>>
     [] OTHER          -> << >>
 \* marker of every phase, plus (optionally) one special rule right after the marker of phase d.p,
-\* plus (optionally) a second deny in phase d.q
+\* plus (optionally) a second deny in phase d.q, plus a closing plain rule in those phases
 RulesOf(d) ==
   LET extra(p) == (IF d.k # "none" /\ d.p = p THEN <<RuleT(100 * p + 1, p, KindActs(d.k))>> ELSE << >>)
                   \o (IF d.q = p THEN <<RuleT(100 * p + 2, p, <<A("deny")>>)>> ELSE << >>)
-  IN FlattenSeq([p \in 1..5 |-> <<Markers[p]>> \o extra(p)])
+      \* a plain rule closing every phase that holds a special rule: it shows whether the rule loop went on
+      tail(p)  == IF extra(p) # << >> THEN <<RuleT(100 * p + 9, p, << >>)>> ELSE << >>
+  IN FlattenSeq([p \in 1..5 |-> <<Markers[p]>> \o extra(p) \o tail(p)])
 
 Side(access, limit, action) == [access |-> access, limit |-> limit, mem |-> limit, action |-> action]
 SliceOfSet(S) == {x \in S : TRUE}
